@@ -107,6 +107,7 @@ class PairType(MichelsonType, ADTMixin, prim='pair', args_len=None):
         if isinstance(val_expr, dict):
             prim, args = val_expr.get('prim'), val_expr.get('args', [])
             assert prim == 'Pair', f'expected Pair, got {prim}'
+            assert not val_expr.get('annots'), f'unexpected annotation {val_expr.get("annots")} on Pair'
         elif isinstance(val_expr, list):
             args = val_expr
         else:
